@@ -298,24 +298,14 @@ func (e *Engine) loopCounter(env *SpecEnv) Val {
 		e.specFail(env, "$i outside a loop invariant")
 	}
 	h := env.loop.header
-	switch h.Comment {
-	case "rangeindex.loop":
-		for _, ins := range h.Instrs {
-			if u, ok := ins.(*ssa.UnOp); ok && u.Op == token.MUL {
-				if a, ok := u.X.(*ssa.Alloc); ok && a.Comment == "rangeindex" {
+	for _, ins := range h.Instrs {
+		if u, ok := ins.(*ssa.UnOp); ok && u.Op == token.MUL {
+			if a, ok := u.X.(*ssa.Alloc); ok {
+				switch a.Comment {
+				case "rangeindex":
 					return intVal("(+ " + env.st.Cells[a].T + " 1)")
-				}
-			}
-		}
-	case "rangeint.body":
-		for b := range env.loop.body {
-			if b.Comment == "rangeint.loop" {
-				for _, ins := range b.Instrs {
-					if u, ok := ins.(*ssa.UnOp); ok && u.Op == token.MUL {
-						if a, ok := u.X.(*ssa.Alloc); ok && a.Comment == "rangeint.iter" {
-							return intVal(env.st.Cells[a].T)
-						}
-					}
+				case "rangeint.iter":
+					return intVal(env.st.Cells[a].T)
 				}
 			}
 		}
@@ -652,6 +642,8 @@ func (e *Engine) trCall(env *SpecEnv, n SCall) Val {
 		}
 		_, ub := e.boxFns(t)
 		return Val{T: "(" + ub + " " + x.T + ")", S: e.sortOf(t), GoT: t}
+	case "bigOf":
+		return intVal(sel(e.heapIn(env.st, "BIGVAL", "(Array Int Int)"), arg(0).T))
 	case "arrayOf":
 		return intVal("(s_ref " + arg(0).T + ")")
 	case "deepEqual":
